@@ -161,6 +161,7 @@ Record c10_case := mkCase {
   (* observed, first load *)
   k_acc1 : bool;
   k_print1 : list clause;
+  k_text1 : bytes;                          (* the printed bytes k_print1 was read from *)
   k_actnum1 : Z;
   (* observed, reload of the printed text *)
   k_acc2 : bool;
@@ -215,6 +216,11 @@ Definition case_model_reload_bad (c : c10_case) : bool :=
       end
   | _ => false
   end.
+
+(** The clause list the harness read back from the printed text stands for
+    that text: rendering it gives the printed bytes. *)
+Definition case_text_bad (c : c10_case) : bool :=
+  k_acc1 c && negb (bytes_eqb (render (k_actnum1 c) (k_print1 c)) (k_text1 c)).
 
 (** The hypotheses of the reload theorem, evaluated on the model state of
     every accepted case: the invariant [wf_state] must hold, and [printable]
